@@ -570,7 +570,7 @@ func (r *Runner) measureWrite(before int64, vlen int, klen int) {
 func (r *Runner) exec(op *Op) (touched [][]byte, global bool, fail *Fail) {
 	switch op.K {
 	case "put":
-		val := GenValue(op.VSeed, op.VLen)
+		val := OpValue(op.VSeed, op.VLen)
 		before := r.ActiveOffset()
 		k, v := r.in(op.Key, val)
 		err := r.DB.Put(k, v)
@@ -899,7 +899,7 @@ func (r *Runner) execBatch(op *Op) (touched [][]byte, global bool, fail *Fail) {
 		s := &op.Ops[i]
 		switch s.K {
 		case "bput":
-			val := GenValue(s.VSeed, s.VLen)
+			val := OpValue(s.VSeed, s.VLen)
 			k, v := r.in(s.Key, val)
 			err := b.Put(k, v)
 			r.after()
@@ -1004,7 +1004,7 @@ func (r *Runner) execBatch(op *Op) (touched [][]byte, global bool, fail *Fail) {
 	for i := range order {
 		s := &order[i]
 		if s.K == "bput" {
-			r.modelPut(s.Key, GenValue(s.VSeed, s.VLen), true)
+			r.modelPut(s.Key, OpValue(s.VSeed, s.VLen), true)
 			r.measureWrite(before, s.VLen, len(s.Key))
 		} else {
 			r.modelDel(s.Key)
@@ -1060,7 +1060,7 @@ func (r *Runner) execMerge(op *Op) (touched [][]byte, global bool, fail *Fail) {
 					w := op.Race[i].Op
 					switch w.K {
 					case "put":
-						val := GenValue(w.VSeed, w.VLen)
+						val := OpValue(w.VSeed, w.VLen)
 						if err := r.DB.Put(append([]byte(nil), w.Key...), val); err != nil {
 							raceFail = failf("put-error", "Put racing with Merge failed: %v", err)
 						} else {
